@@ -197,7 +197,8 @@ def is_length_warning(w):
     self-referencing-criteria note). The workloads that use this predicate never enable segment combining, so no other
     parse-time warning of the package can occur."""
     fn = str(getattr(w, "filename", "")).replace("\\", "/")
-    return issubclass(w.category, UserWarning) and "/space_packet_parser/" in fn and not fn.endswith("comparisons.py")
+    from vmon.libutil import IGNORED_WARNING_CATEGORIES
+    return not issubclass(w.category, IGNORED_WARNING_CATEGORIES) and "/space_packet_parser/" in fn and not fn.endswith("comparisons.py")
 
 
 def stream_expectation(outcomes, parse_bad_pkts=True, yield_unrecognized=False):
